@@ -647,6 +647,20 @@ class ParsedField:
     raw: bytes
 
 
+def _wire_type_fits(proto_type: str, repeated: bool, wire_type: int) -> bool:
+    """Whether a field declared as ``proto_type`` can arrive with ``wire_type``."""
+    if proto_type in WIRE_VARINT_TYPES:
+        expected = WIRE_VARINT
+    elif proto_type in WIRE_FIXED_32_TYPES:
+        expected = WIRE_FIXED_32
+    elif proto_type in WIRE_FIXED_64_TYPES:
+        expected = WIRE_FIXED_64
+    else:
+        return wire_type == WIRE_LEN_DELIM
+    # repeated scalars may also arrive packed into one length-delimited record
+    return wire_type == expected or (repeated and wire_type == WIRE_LEN_DELIM)
+
+
 def _read_exactly(stream: "SupportsRead[bytes]", size: int) -> bytes:
     """Read ``size`` bytes of payload or fail: a short read means truncated input."""
     data = stream.read(size)
@@ -1399,6 +1413,14 @@ class Message(ABC):
         # a message of size 0 has no fields: nothing more may be read from the stream
         for parsed in load_fields(stream) if size != 0 else ():
             field_name = proto_meta.field_name_by_number.get(parsed.number)
+            if field_name and not _wire_type_fits(
+                proto_meta.meta_by_field_name[field_name].proto_type,
+                proto_meta.default_gen[field_name] is list,
+                parsed.wire_type,
+            ):
+                # e.g. a varint where a string is declared: not a value of this
+                # field, keep it with the unknown fields instead
+                field_name = None
             if not field_name:
                 self._unknown_fields += parsed.raw
                 # unknown fields count towards the size of the message as well
